@@ -105,4 +105,18 @@ theorem dense_cons_coef (den : Terms (Coef K)) (g : K) (h0 : coefAt den 0 = Coef
     List.tail_cons]
   rfl
 
+/-- the generated time-varying loop computes `tvspec` (constant gain, not all-zero) -/
+theorem evalTV_eq_tvspec (b as : List (Coef K)) (a0 zero : K) (mem xs : List K)
+    (hmem : mem.length = as.length)
+    (hnz : ¬ ((∀ c ∈ b, c = Coef.const 0) ∧ (∀ c ∈ as, c = Coef.const 0))) :
+    (evalTV (compileTV b (Coef.const a0 :: as) zero) mem zero (itsOf b as) xs).1
+      = tvspec b as (Coef.const a0) zero 0 mem [] xs := by
+  rw [compileTV_loop b as a0 zero hnz, itsOf_eq]
+  simp only [evalTV]
+  rw [runLoopTV_eq_tvrun b as a0 _ (applyGain_compile a0) xs 0 0 0 mem
+    (List.replicate (b.length - 1) zero) hmem (by simp)]
+  have h2 := tvrun_eq_tvspec b as (Coef.const a0) zero xs 0 mem [] (by omega)
+  rw [takeP_nil, ← hmem, List.take_length] at h2
+  exact h2
+
 end ALV.C06
